@@ -152,8 +152,7 @@ func (fr *Frame) appendOp(c *ssa.CallCommon, args []Val, cond T, st *State) Val 
 				s.Len.S, na.S, res.Off.S, old.S, s.Off.S, na.S, res.Off.S), SBool})
 			st.setGlob(key, vc.name(key, Sto(a, res.Arr, na)))
 		} else if structOf(et) != nil {
-			fr.havocType(st, et)
-			vc.warn("append of struct elements: contents abstracted")
+			fr.appendStructs(st, s, add, res, et, nAdd, known)
 		}
 		return res
 	}
